@@ -36,6 +36,7 @@ struct hdesc
     bool interrupt;
     bool user_cb;
     int interrupt_after;
+    int join_spin;    // busy iterations between spawn and join (join swept across the target's exit)
 };
 
 struct world
@@ -186,8 +187,50 @@ int main(int argc, char** argv)
     pika::start(ac, av.data());
     vlog::rng R(seed * 22695477 + 1);
 
+    // join storm: a short thread is created and joined, the join swept across the target's exit; every
+    // create/join pair is its own tiny history
+    auto run_mini = [&](int spin) {
+        auto wp = std::make_unique<world>();
+        world* w = wp.get();
+        ev("init").i("nh", 1).done();
+        w->body_done[1] = 0;
+        w->cb_accepted[1] = 0;
+        g_cb_ran[1] = 0;
+        hdesc d{};
+        d.body = 0;
+        std::atomic<int> fin{0};
+        ex::execute(ex::thread_pool_scheduler{}, [&, w, d, spin] {
+            call(1, "spawn", 1);
+            w->th[1].emplace([w, d] { body(w, 1, d, pika::stop_token{}); });
+            ret(1, 1);
+            for (int i = 0; i < spin; ++i) asm volatile("" ::: "memory");
+            call(1, "join", 1);
+            w->th[1]->join();
+            ret(1, w->body_done[1].load() ? 1 : -7);
+            fin = 1;
+        });
+        auto t0 = clk::now();
+        while (!fin.load())
+        {
+            std::this_thread::sleep_for(std::chrono::microseconds(100));
+            if (clk::now() - t0 > std::chrono::seconds(12))
+            {
+                ev("quiescent").done();
+                vlog::flush();
+                vlog::hang_pause();
+                _exit(0);
+            }
+        }
+        ev("reset").done();
+    };
+
     for (int hi = 0; hi < nhist; ++hi)
     {
+        if (R.chance(1, 8))
+        {
+            for (int k = 0; k < 40; ++k) run_mini((int) R.below(9000));
+            continue;
+        }
         auto wp = std::make_unique<world>();
         world* w = wp.get();
         int nh = 1 + (int) R.below(4);
@@ -215,6 +258,18 @@ int main(int argc, char** argv)
             if (d.body == 3) d.end = 3;                      // only destruction stops it
             if (d.body == 2 && d.end == 1) d.end = 0;
             if (d.body == 6) d.end = R.chance(1, 2) ? 0 : 4;
+            d.join_spin = 0;
+            if (!d.jthread && R.chance(2, 5))
+            {
+                // quick join: a short body, joined right away - the join lands around the target's exit
+                d.body = R.chance(1, 2) ? 0 : 1;
+                d.yields = 1;
+                d.interrupt = false;
+                d.user_cb = false;
+                d.pre_join_yields = 0;
+                d.end = 0;
+                d.join_spin = (int) R.below(12000);
+            }
             w->sem[h] = std::make_unique<pika::counting_semaphore<>>(0);
             w->body_done[h] = 0;
             w->cb_accepted[h] = 0;
@@ -266,6 +321,7 @@ int main(int argc, char** argv)
                     w->sem[h]->release();
                 }
                 for (int i = 0; i < d.pre_join_yields; ++i) pika::this_thread::yield();
+                for (int i = 0; i < d.join_spin; ++i) asm volatile("" ::: "memory");
                 ++progress;
                 auto do_join = [&]() {
                     call(a, "join", h);
